@@ -355,10 +355,29 @@ def post_once(om, body, boundary, framing, arg, M):
                 pieces.append(body[p:q])
             p = q
         env = wsgi.environ('POST', '/u', body=refmp.chunked_encode(pieces), ctype=ctype, chunked=True)
+    elif framing == 'cl-short':
+        # Content-Length framing over a connection that answers every read short (one byte / half / one byte less than asked for)
+        env = wsgi.environ('POST', '/u', input=ShortStream(body, arg[0]), clen=len(body), ctype=ctype)
     else:
         env = wsgi.environ('POST', '/u', body=body, ctype=ctype)
     c = wsgi.call(app, env)
     return c.status, seen.get('forms'), seen.get('files'), c.errors[-300:]
+
+
+class ShortStream:
+    def __init__(self, data, mode):
+        self.data, self.pos, self.mode = data, 0, mode
+
+    def read(self, n=-1):
+        left = len(self.data) - self.pos
+        if n is None or n < 0:
+            n = left
+        k = min(n, left)
+        if k > 1:
+            k = {'one': 1, 'half': (k + 1) // 2, 'minus1': k - 1}[self.mode]
+        out = self.data[self.pos:self.pos + k]
+        self.pos += k
+        return out
 
 
 def work_wsgi(arg):
@@ -390,6 +409,8 @@ def work_wsgi(arg):
     for M in range(need, L + 2):
         check('cl', None, M)      # buffer-size-regular cuts
         check('chunked', (), M)
+        for mode in ('one', 'half', 'minus1'):
+            check('cl-short', (mode,), M)
     res['states'] += 1
     res['nontrivial'] += 1
     core.add_sample(res, {'wsgi_body': body, 'divisions': res['execs']})
